@@ -505,6 +505,25 @@ func (w *Writer) ForceSeal() (uint64, error) {
 		return w.writer.indexStart, nil
 	}
 
+	flushed := false
+
+	// Save any state we may need to rollback.
+	beforeBuf := w.writer.commitBuf
+	beforeCRC := w.writer.crc
+	beforeIndexStart := w.writer.indexStart
+	beforeWriteOffset := w.writer.writeOffset
+
+	defer func() {
+		if !flushed {
+			// rollback writer state on error, otherwise a retry would treat the
+			// segment as sealed although its index frame never reached the disk.
+			w.writer.commitBuf = beforeBuf
+			w.writer.crc = beforeCRC
+			w.writer.indexStart = beforeIndexStart
+			w.writer.writeOffset = beforeWriteOffset
+		}
+	}()
+
 	// Seal the segment! We seal it by writing an index frame before we commit.
 	if err := w.appendIndex(); err != nil {
 		return 0, err
@@ -515,6 +534,7 @@ func (w *Writer) ForceSeal() (uint64, error) {
 		return 0, err
 	}
 
+	flushed = true
 	return w.writer.indexStart, nil
 }
 
